@@ -433,13 +433,13 @@ func Invoke(inv Invocation) int {
 		binaryName = filepath.Base(inv.CompileOut)
 	}
 
+	if !inv.Keep {
+		defer os.RemoveAll(main)
+	}
 	err = GenerateMainfile(binaryName, main, info)
 	if err != nil {
 		errlog.Println("Error:", err)
 		return 1
-	}
-	if !inv.Keep {
-		defer os.RemoveAll(main)
 	}
 	files = append(files, main)
 	if err := Compile(inv.GOOS, inv.GOARCH, inv.Ldflags, inv.Dir, inv.GoCmd, exePath, files, inv.Debug, inv.Stderr, inv.Stdout); err != nil {
